@@ -90,10 +90,12 @@ func ExclusiveRateLimit(ctx context.Context, minDuration time.Duration) Exclusiv
 			if remainingDuration := ts.Add(minDuration).Sub(time.Now()); remainingDuration > 0 {
 				timer := time.NewTimer(remainingDuration)
 				defer timer.Stop()
+				verifAt("excl.ratelimit.tw0", nil, 0)
 				select {
 				case <-ctx.Done():
 				case <-timer.C:
 				}
+				verifAt("excl.ratelimit.tw1", nil, 0)
 			}
 		}
 	})
@@ -164,6 +166,7 @@ func (e *Exclusive) call(c exclusiveConfig) <-chan *ExclusiveOutcome {
 	var item *exclusiveItem
 	for {
 		// init map and obtain item
+		verifAt("excl.call.emu1.lock", e, 0)
 		e.mutex.Lock()
 		if e.work == nil {
 			e.work = make(map[interface{}]*exclusiveItem)
@@ -179,11 +182,13 @@ func (e *Exclusive) call(c exclusiveConfig) <-chan *ExclusiveOutcome {
 		e.mutex.Unlock()
 
 		// lock item then the root to check if item is still valid
+		verifAt("excl.call.item.lock", e, 0)
 		item.mutex.Lock()
 
 		var valid bool
 
 		// check validity of item and initialise if so
+		verifAt("excl.call.emu2.lock", e, 0)
 		e.mutex.Lock()
 		if v, _ := e.work[c.key]; v == item {
 			valid = true
@@ -227,7 +232,9 @@ func (e *Exclusive) call(c exclusiveConfig) <-chan *ExclusiveOutcome {
 		// wait until not running, which has two cases
 		// 1) newly initialised item or item initialised while running
 		// 2) item has been completed (by another waiter in the same batch)
+		verifAt("excl.run.start", e, 0)
 		for item.running {
+			verifAt("excl.run.wait", e, 0)
 			item.cond.Wait()
 		}
 
@@ -255,13 +262,16 @@ func (e *Exclusive) call(c exclusiveConfig) <-chan *ExclusiveOutcome {
 			// adjust the sleep by how long we have already waited
 			if wait := item.wait - time.Since(item.ts); wait > 0 {
 				item.mutex.Unlock()
+				verifAt("excl.run.tw0", e, 0)
 				time.Sleep(wait)
+				verifAt("excl.run.tw1", e, 0)
 				item.mutex.Lock()
 			}
 		}
 
 		// replace the item in the work map with a new one sharing the same mutex and cond and also running
 		// (we still use our current item, but we only want calls started BEFORE this one to share the same result)
+		verifAt("excl.run.emu.lock", e, 0)
 		e.mutex.Lock()
 		nextItem := &exclusiveItem{
 			mutex:   item.mutex,
@@ -287,6 +297,7 @@ func (e *Exclusive) call(c exclusiveConfig) <-chan *ExclusiveOutcome {
 							}
 							close(outcome)
 						}
+						verifAt("excl.resolve.lock", e, 0)
 						item.mutex.Lock()
 						item.result = result
 						item.err = err
@@ -304,9 +315,11 @@ func (e *Exclusive) call(c exclusiveConfig) <-chan *ExclusiveOutcome {
 		// note this is the same mutex
 		// the reason why we don't just do this as part of resolve is to allow the work func to apply limiting
 		// (setting nextItem.running to false is what actually triggers the next job, if any)
+		verifAt("excl.run.next.lock", e, 0)
 		nextItem.mutex.Lock()
 		nextItem.running = false
 		if nextItem.count == 0 {
+			verifAt("excl.run.del.lock", e, 0)
 			e.mutex.Lock()
 			delete(e.work, c.key)
 			e.mutex.Unlock()
